@@ -30,17 +30,26 @@ def _get_module_from_registry(filepath: str):
     return None
 
 
-def _load_from_path(filepath: str) -> AS.Value:
-    module = _get_module_from_registry(filepath)
-    if module is not None:
-        return module
+def _load_from_path(metadata: AS.Metadata, filepath: str) -> AS.Value:
+    try:
+        module = _get_module_from_registry(filepath)
+        if module is not None:
+            return module
 
-    with open(filepath, "r", encoding="utf-8") as reader:
-        program = reader.read()
+        with open(filepath, "r", encoding="utf-8") as reader:
+            program = reader.read()
+    except OSError as err:
+        raise error.UnsuspectedHangeulOSError(
+            metadata, f"운영체제 오류 errno={err.errno}", err.errno or 0
+        ) from None
+    except ValueError as err:  # undecodable contents, NUL in the path
+        raise error.UnsuspectedHangeulImportError(
+            metadata, f"{filepath}를 모듈로 읽을 수 없습니다: {err}"
+        ) from None
     exprs = parse.parse(filepath, program)
     if len(exprs) != 1:
         raise error.UnsuspectedHangeulValueError(
-            exprs[0].metadata,
+            exprs[0].metadata if exprs else metadata,
             f"모듈에는 표현식이 하나만 있어야 하는데 {len(exprs)}개가 있습니다.",
         )
     env = AS.Env([], [])
@@ -65,17 +74,19 @@ def _load_from_literal(metadata: AS.Metadata, literals: list[int]) -> AS.Value:
     if literals[0] == 5:
         module = _BUITLIN_MODULE_REGISTRY
         for idx in literals[1:-1]:
-            directory = module[idx]
+            directory = module.get(idx)
             if not isinstance(directory, AS.Dict):
                 raise error.UnsuspectedHangeulNotFoundError(metadata, errmsg)
             module = directory.mapping
+        if literals[-1] not in module:
+            raise error.UnsuspectedHangeulNotFoundError(metadata, errmsg)
         return module[literals[-1]]
 
     # Search files
     filepath = _search_file_from_literal(metadata, literals)
     if filepath is None:
         raise error.UnsuspectedHangeulNotFoundError(metadata, errmsg)
-    module = _load_from_path(filepath)
+    module = _load_from_path(metadata, filepath)
     return module
 
 
@@ -86,6 +97,9 @@ def _search_file_from_literal(
         if not os.path.isfile(location):
             return None  # TODO: Dict?
         return location
+
+    if not os.path.isdir(location):
+        return None  # a file cannot contain the remaining components
 
     results: list[str] = []
     cur, *sub = literals
@@ -178,7 +192,7 @@ def build_tbl(
         utils.check_arity(metadata, argv, 1)
         filepath = yield argv[0]
         [filepath] = utils.check_type(metadata, [filepath], AS.String)
-        return _load_from_path(filepath.value)
+        return _load_from_path(metadata, filepath.value)
 
     for name in modules.__all__:
         module = _register_builtin_module(name)
